@@ -148,6 +148,16 @@ def check_property(prop, tier, repo, record=False, verbose=False):
         standins.append({"function": fn, "reason": tgt, "tool": "native scenario harness (replay/realisers.py)", "result": status, "replay": os.path.relpath(path, VERIF) if path else None})
         if status == "confirmed":
             vio_lines.append("VIOLATION property=%s replay=%s" % (prop, os.path.relpath(path, VERIF)))
+    # parts of the property that are induction over whole programs / whole archives: their scenario harness runs on
+    # every check (bounded, labelled as such in the evidence; a failing scenario is a violation with a real input)
+    for fn, why in rep["world"].always_standin.get(prop, []):
+        if fn in seen_fn:
+            continue
+        seen_fn.add(fn)
+        path, status = RP.standin(prop, fn, "always: " + why, repo, replay_dir)
+        standins.append({"function": fn, "reason": "always run: " + why, "tool": "native scenario harness (replay/realisers.py)", "result": status, "replay": os.path.relpath(path, VERIF) if path else None})
+        if status == "confirmed":
+            vio_lines.append("VIOLATION property=%s replay=%s" % (prop, os.path.relpath(path, VERIF)))
     for o, k in known_hit:
         lines.append("KNOWN-FINDING: property=%s %s" % (prop, k["what"]))
     # --- evidence ------------------------------------------------------------------------
